@@ -574,6 +574,10 @@ def r3_lookup(prog, rep: Report, im):
             verdicts.setdefault(role_of[world], []).append(("unrec", f"no exit found in the world '{world}'"))
         elif not wrong:
             verdicts.setdefault(role_of[world], []).append(("ok", f"{world}: {want}"))
+        elif all(u for _, u in wrong) and getattr(cl, "value_tests", None) and want == "value":
+            verdicts.setdefault(role_of[world], []).append(("viol", f"{WORLD_TEXT[world]} the outcome depends on a test of the stored value "
+                                                            f"(`{cl.value_tests[0]}`): a value that is None (or falsy) is reported as "
+                                                            f"missing although its interval holds the key"))
         elif all(u for _, u in wrong):
             verdicts.setdefault(role_of[world], []).append(("unrec", f"in the world '{world}' the outcome depends on a test that is "
                                                             f"not about the key, the bisect index or the candidate: {cl.undecided[:2]}"))
@@ -803,6 +807,13 @@ class _Lookup(SymClient):
         r = self._decide(term)
         if r is None:
             self.undecided.append(src(node))
+            # a test of the candidate's *value* (against None, or as a truth value): the outcome of the look-up depends on what is stored
+            t_ = term
+            while isinstance(t_, tuple) and t_ and t_[0] == "not":
+                t_ = t_[1]
+            if t_ == self.V or (isinstance(t_, tuple) and t_ and t_[0] == "cmp" and t_[1] in ("Is", "IsNot", "Eq", "NotEq")
+                                and ((t_[2] == self.V and t_[3] == ("c", None)) or (t_[3] == self.V and t_[2] == ("c", None)))):
+                self.value_tests = getattr(self, "value_tests", []) + [src(node)]
             flagged = self.pack(env, 0, tuple(sorted(set(user or ()) | {"undecided"})))
             return ((flagged,), (flagged,))
         return r
